@@ -6,7 +6,9 @@ wt=/tmp/seedwt-$name
 git -C /repo worktree remove --force $wt >/dev/null 2>&1
 git -C /repo worktree add --detach $wt HEAD >/dev/null 2>&1 || { echo "$id: worktree failed"; exit 1; }
 cd $wt
-if ! git apply --3way $src/patch.diff >/dev/null 2>&1; then echo "$id: PATCH DOES NOT APPLY to HEAD"; cd /; git -C /repo worktree remove --force $wt; exit 1; fi
+patch=$src/patch.diff; ported=""
+if [ -f /tmp/ported/$name.diff ]; then patch=/tmp/ported/$name.diff; ported="the sub-agent's patch was written against the pinned commit and no longer applied after the fix: commits; it was ported by hand to HEAD (same edit, same mechanism)"; fi
+if ! git apply --3way $patch >/dev/null 2>&1; then echo "$id: PATCH DOES NOT APPLY to HEAD"; cd /; git -C /repo worktree remove --force $wt; exit 1; fi
 git reset -q
 tests=$(/venv/bin/python -m pytest -q -p no:cacheprovider --timeout=900 2>&1 | grep -E "passed|failed" | tail -1)
 timeout 600 /venv/bin/python $src/demo.py >/tmp/seed-$name.mut.out 2>&1 </dev/null; rc_mut=$?
@@ -19,13 +21,13 @@ if echo "$tests" | grep -q "392 passed" && [ $rc_mut -ne 0 ] && [ $rc_clean -eq 
   mkdir -p /verif/seeded/$name
   cp /tmp/seed-$name.patch /verif/seeded/$name/patch.diff
   cp $src/demo.py /verif/seeded/$name/demo.py
-  python3 - "$src/meta.json" "/verif/seeded/$name/meta.json" "$tests" "$rc_mut" "$rc_clean" <<'PY'
+  python3 - "$src/meta.json" "/verif/seeded/$name/meta.json" "$tests" "$rc_mut" "$rc_clean" "$ported" <<'PY'
 import json, sys
 m = json.load(open(sys.argv[1], encoding="utf-8"))
 out = dict(property=m.get("property"), summary=m.get("summary"), needs_to_manifest=m.get("needs_to_manifest"), files=m.get("files"),
            confirmed=dict(base="HEAD of /repo (pinned commit + fix: commits) in a scratch worktree", test_suite=sys.argv[3], demo_with_change_exit=int(sys.argv[4]), demo_without_change_exit=int(sys.argv[5]),
                           commands=["git apply --3way patch.diff", "/venv/bin/python -m pytest -q -p no:cacheprovider --timeout=900", "/venv/bin/python demo.py (changed tree)", "git checkout -- . ; /venv/bin/python demo.py (unchanged tree)"]),
-           author_ran=m.get("ran"))
+           author_ran=m.get("ran"), ported=sys.argv[6] or None)
 json.dump(out, open(sys.argv[2], "w", encoding="utf-8"), indent=1, ensure_ascii=False)
 PY
   echo "$id: KEPT"
